@@ -184,28 +184,6 @@ def replay(ob):
     return bool(res and res.get("violates")), payload
 
 
-def bounded(run, tier):
-    script = os.path.join(report.ROOT, "replay", "c08_bounded.py")
-    res, proc = report.native_json(script, {"tier": tier, "seed": run.seed}, timeout=900)
-    if res is None:
-        run.engine_fault = "bounded tier crashed: " + (proc.stderr or "")[-600:]
-        return
-    run.bounded = {"label": "bounded (not proof)", "bound": res["bound"], "evaluations": res["evaluations"],
-                   "distinct_nontrivial": res["distinct_nontrivial"], "rule": res["rule"], "passed": not res["failures"],
-                   "known": res.get("known", [])}
-    run.samples += res.get("samples", [])[:3]
-    known = report.open_findings(PROP)
-    for f in res["failures"]:
-        kf = next((k for k in known.values() if k.get("witness_class") == f.get("class")), None)
-        if kf is not None:
-            continue
-        run.violation("bounded/" + f["class"], {"bounded_case": f, "note": "run-time contract failed on the real function (bounded tier)"}, True)
-    for cls in sorted({f.get("class") for f in res["failures"]}):
-        kf = next((k for k in known.values() if k.get("witness_class") == cls), None)
-        if kf is not None:
-            run.known(f"{kf['id']}: {kf['what']}")
-
-
 def main(tier="quick", seed=0):
     run = report.Run(PROP, tier, seed)
     spec = factory()
@@ -213,7 +191,7 @@ def main(tier="quick", seed=0):
     if faults:
         run.engine_fault = faults[0][-1500:]
     generic_refutations(run, spec, PROP, replay)
-    bounded(run, tier)
+    run_bounded(run, PROP, "c08_bounded.py", tier)
     return run.finish(spec, "proof", "select/rename proved; expansion order bounded; see DESIGN.md C08")
 
 
